@@ -163,6 +163,12 @@ def gen_program(rng, winddown=False):
 
 
 def build_program(bt, spec):
+    s, data, add, kw = program_parts(bt, spec)
+    return bt.Backtest(s, data, integer_positions=spec["integer"], additional_data=add, progress_bar=False, **kw)
+
+
+def program_parts(bt, spec):
+    """(strategy definition, data, additional data, Backtest keywords) of a generated fixed-income program"""
     c = bt.core
     a = bt.algos
     idx = pd.DatetimeIndex(spec["dates"])
@@ -184,8 +190,7 @@ def build_program(bt, spec):
     kw = {}
     if spec["comm"][0]:
         kw["commissions"] = E.make_comm(*spec["comm"])
-    b = bt.Backtest(s, data, integer_positions=spec["integer"], additional_data=add, progress_bar=False, **kw)
-    return b
+    return s, data, add, kw
 
 
 def run_program(ctx, bt, spec):
